@@ -27,8 +27,8 @@ CHECKS = {
     "C10": ("single", "exploration", "random timing configurations and operation sequences placed at, just before and just after every timer deadline and transmission instant of the run so far; windows in which sendto() fails and is reported through error_received(); the decoded offer timeline at the transport is judged by interval arithmetic from the property text", "DESIGN.md §6 C10"),
     "C11": ("single", "exploration", "random multi-entry Subscribe / StopSubscribe messages against servers in every lifecycle state with scripted listener decisions; the exact per-sender Ack/Nack sequence is predicted by the subscription model; multicast Subscribes are judged by an exact twin run", "DESIGN.md §6 C11"),
     "C12": ("single", "exploration", "FindService entries over all wildcard combinations at instants aligned with the offer lifecycle, unicast and multicast; every unicast offer must match a pending request inside its timing window and every request to a ready instance must be answered", "DESIGN.md §6 C12"),
-    "C13": ("single", "exploration", "1-4 watched filters, timing configurations incl. min=max windows and forced uniform extremes, rogue offers / stop-offers / short-TTL offers / reboots placed at and around every round instant; each round's entry set, content, destination and timing are predicted by an interval store model", "DESIGN.md §6 C13"),
-    "C14": ("single", "exploration", "random subscribe / stop-subscribe / start / stop sequences over 4 eventgroups x 3 servers with calls placed in the same instant, at and around the refresh ticks, in I/O and timer phase; a model server per destination applies the decoded entries in transmission order and must mirror the requested set at every idle point", "DESIGN.md §6 C14"),
+    "C13": ("single", "exploration", "1-4 watched filters, timing configurations incl. min=max windows and forced uniform extremes, rogue offers / stop-offers / short-TTL offers / reboots placed at and around every round instant, windows in which sendto() fails and is reported through error_received(); each round's entry set, content, destination and timing are predicted by an interval store model", "DESIGN.md §6 C13"),
+    "C14": ("single", "exploration", "random subscribe / stop-subscribe / start / stop sequences over 4 eventgroups x 3 servers with calls placed in the same instant, at and around the refresh ticks, in I/O and timer phase, windows in which sendto() fails and is reported through error_received(); a model server per destination applies the decoded entries in transmission order and must mirror the requested set at every idle point", "DESIGN.md §6 C14"),
     "C15": ("single", "exploration", "every queue_send call is recorded on the announcer instance and matched, per destination and in order, with the decoded entries leaving the transport; bursts up to 130 entries, requests placed exactly at collector deadlines, and windows in which sendto() fails and is reported through error_received()", "DESIGN.md §6 C15"),
     "C16": ("svc", "exploration", "requests arrive as datagrams (single, coalesced, duplicated, with undecodable tails, unicast and multicast) at a SimpleService that concurrently serves subscriptions and 50 ms cyclic notifications; every reply at the transport is compared with the decision chain of the property text. The schedule adds little here - each message is handled synchronously - which DESIGN.md says plainly", "DESIGN.md §6 C16"),
     "C17": ("svc", "exploration", "a SimpleService with an explicit and a cyclic eventgroup behind a real SD stack; rogue clients subscribe / stop / restart / let TTLs expire while values change and explicit rounds are requested inside the seeded resolver latency of pending rounds; datagrams are matched (bipartite) against initial / explicit / cyclic expectations, payloads against the value history, session ids per destination", "DESIGN.md §6 C17"),
